@@ -96,7 +96,7 @@ def run(tier):
     # four of five tables give their sub-groups keys that are unrelated to the other keys, where everything is as specified)
     nsub = 0
     substems = ["group", "sub", "subgroup", "target", "tar", "extra"]
-    for t in range(30 if tier == "quick" else 600):
+    for t in range(30 if tier == "quick" else 250):
         k = g.randint(2, 8)
         keys = []
         subs = set(g.sample(range(k), g.randint(1, 2)))
